@@ -9,7 +9,9 @@ TEXTS = {
                 "Raft apply loop (Model/Order.lean: entriesToApply, publishEntries/mint, reportState, maybeTriggerSnapshot, restart): for EVERY sequence of Ready batches (any entries: duplicates, replays, gaps, stale heights), "
                 "snapshots, reports, executor takes and crash/restarts, the executor is handed exactly ledger+1, ledger+2, ... — consecutive, ascending, none twice (C20_delivery_consecutive, invariant `Good`: the minted queue "
                 "continues the ledger). The other half ('no unexecuted entry is skipped') is false of the code: C20_snapshot_ahead_skips_unexecuted is the recorded finding as a kernel-checked witness. "
-                "The model is run against the real etcdraft node (order engine: real raft storage, crash / restart at every point).",
+                "The model is run against the real etcdraft node (order engine: real raft storage, crash / restart at every point). 'A transaction is included in at most one delivered block' is "
+                "a property of the pool every proposed batch comes out of: proved there for every pool state (C18_generate_gap_free_no_repeat: no pointer of a batch was batched and uncommitted before) and checked "
+                "here on the real mempool by the pool engine (rule transaction-in-two-batches).",
         "note": TB + " uint64 wrap-around outside end+fetch < 2^64 is not covered.",
         "technique": "Lean 4 theorem over an executable model + differential correspondence with the Go code",
     },
